@@ -63,10 +63,13 @@ def run(rep, tier, seed, replay=None):
             eng, g = c.args[1], c.args[2]
             ds = c.script[0]
             for cut in range(len(ds) + 1):
-                for fam in ("v4", "v6"):
+                # (v4m: the IPv4 peer named by its IPv4-mapped IPv6 address ::ffff:127.0.0.1)
+                for fam in ("v4", "v6", "v4m"):
                     # (LONG: a timeout long enough for ONE extra wait to stand out from the slack; those cases run in parallel lanes)
                     for ms in ((60, LONG) if tier == "quick" else (60, 150, LONG)):
                         if ms == LONG and (cut % 2 == 0) != (fam == "v4"):
+                            continue
+                        if fam == "v4m" and (ms != 60 or cut not in (0, len(ds))):
                             continue
                         for r in ((0, 2) if tier == "quick" else (0, 1, 2)):
                             k += 1
@@ -78,9 +81,11 @@ def run(rep, tier, seed, replay=None):
         for v in [x for x in netprops.valid_cases("gs2", seed + 12, 40) if not x.notwf and x.want.startswith("OK")][: (2 if tier == "quick" else 10)]:
             ds = v.case().script[0]
             for cut in range(len(ds) + 1):
-                for fam in ("v4", "v6"):
+                for fam in ("v4", "v6", "v4m"):
                     for ms in ((60, LONG) if tier == "quick" else (60, 150, LONG)):
                         if ms == LONG and (cut % 2 == 0) != (fam == "v4"):
+                            continue
+                        if fam == "v4m" and (ms != 60 or cut not in (0, len(ds))):
                             continue
                         for r in ((0, 2) if tier == "quick" else (0, 1, 2)):
                             k += 1
@@ -96,7 +101,7 @@ def run(rep, tier, seed, replay=None):
                     cases.append(f"{cid} realjava {fam} {ms} {r}")
                     meta[cid] = ("tcp", ms, 0, 0)
         sizes = [0, 1, 1023, 1024, 1025, 1400, 6144, 65507]
-        for fam in ("v4", "v6"):
+        for fam in ("v4", "v6", "v4m"):
             for size in sizes:
                 for rs in (1024, 6144, 70000):
                     k += 1
@@ -164,7 +169,7 @@ def run(rep, tier, seed, replay=None):
                     elif e.startswith("R") and used < len(ds) and bursts:
                         used += 1
                         bursts[-1] += 1
-                famv = "v6" if k2 % 2 else "v4"
+                famv = ("v4", "v6", "v4", "v6", "v4m")[k2 % 5]
                 blocked = sum(1 for e in tr if (e.startswith("R") and e.endswith(":T")) or (e.startswith("S") and e.endswith("!")))
                 # a server that stops in the MIDDLE of a reply (it answered the last request with some datagrams, not all):
                 # measured with a timeout long enough for one extra wait per attempt to stand out from scheduling noise
